@@ -210,6 +210,10 @@ pub struct Ctx<'a> {
     pub assert: bool,
 }
 
+pub fn tag_pub(sk: &SK) -> String {
+    tag(sk)
+}
+
 pub(crate) fn tag(sk: &SK) -> String {
     let mode = sk.mode.map(|m| m.name()).unwrap_or("default");
     let mut s = format!("{}.{}", if sk.is_lock { "lock" } else { "type" }, mode);
@@ -478,6 +482,12 @@ impl<'a> Ctx<'a> {
                 return;
             }
         };
+        self.judge_capacity(sk, got);
+    }
+
+    /// Judge one `get_cells_capacity` answer against the model `self.m` (which must be the model
+    /// of the tip the answer names, or of the indexer's tip for a sequential query).
+    pub fn judge_capacity(&mut self, sk: &SK, got: Option<(u64, u64, H)>) {
         let cells = self.m.cells_for(sk);
         let sum: u64 = cells.iter().map(|c| c.capacity).sum();
         if !cells.is_empty() {
